@@ -447,10 +447,15 @@ func (s *Server) serveHTTP(w http.ResponseWriter, r *http.Request) (int, error) 
 	// enforce strict host matching, which ensures that the SNI
 	// value (if any), matches the Host header; essential for
 	// sites that rely on TLS ClientAuth sharing a port with
-	// sites that do not - if mismatched, close the connection
+	// sites that do not - if mismatched, close the connection.
+	// A handshake without SNI proves nothing about which site's
+	// TLS config was used (it may have been selected by the local
+	// IP address rather than as the catch-all), so it never
+	// satisfies strict host matching, not even for an empty Host.
 	if !vhost.TLS.InsecureDisableSNIMatching && r.TLS != nil &&
 		vhost.TLS.ClientAuth != tls.NoClientCert &&
-		strings.ToLower(r.TLS.ServerName) != strings.ToLower(hostname) {
+		(r.TLS.ServerName == "" ||
+			strings.ToLower(r.TLS.ServerName) != strings.ToLower(hostname)) {
 		r.Close = true
 		log.Printf("[ERROR] %s - strict host matching: SNI (%s) and HTTP Host (%s) values differ",
 			vhost.Addr, r.TLS.ServerName, hostname)
